@@ -56,7 +56,7 @@ class Model(LPModel):
                 super().st(constr)
             elif constr.xtype in 'ESQ':
                 self.cvx_constr.append(constr)
-            elif constr.xtype in 'GCDTC':
+            elif constr.xtype in 'GTC':
                 self.ip_constr.append(constr)
             else:
                 raise ValueError('Unsupported convex constraints.')
